@@ -9,7 +9,10 @@ from .express_base_vectors import express_base_vectors
 def convert_point(point: AppliedPoint, new_system: BaseCoordinateSystem) -> AppliedPoint:
     # Point coordinates change contravariantly
     conversion = express_base_scalars(new_system, point.system)
-    new_coordinates = [expr.subs(point.coordinates) for expr in conversion.values()]
+    # coordinates can be expressed via the base scalars of the system, so replace them at once
+    new_coordinates = [
+        expr.subs(point.coordinates, simultaneous=True) for expr in conversion.values()
+    ]
     return AppliedPoint(new_coordinates, new_system)
 
 
@@ -29,10 +32,7 @@ def convert_vector(
 
     new_vector = vector.subs(conversion)
 
-    for new_scalar, new_coordinate in new_point.coordinates.items():
-        new_vector = new_vector.subs(new_scalar, new_coordinate)
-
-    return new_vector
+    return new_vector.subs(new_point.coordinates, simultaneous=True)
 
 
 __all__ = [
